@@ -6,7 +6,12 @@ CONFIG = dict(
     inject=[("harness/Q/ordered.rs", "core/src/common/ordered_work_steal.rs", "kani")],
     kani=[
         dict(name="q_ordered_tick_contract"),
-        dict(name="q_ordered_pop_order", bounded="<= 2 priorities x <= 2 items per queue", timeout=1200),
+        dict(name="q_ordered_pop_consultation_order"),
+        dict(name="q_ordered_pop_local_contract", bounded="<= 2 priorities x <= 2 items"),
+        dict(name="q_ordered_shared_push_pop", bounded="<= 2 priorities x <= 2 items"),
+        dict(name="q_ordered_idle_pop_finds_work_start0", bounded="sibling: <= 2 priorities x <= 2 items", timeout=1200),
+        dict(name="q_ordered_idle_pop_finds_work_start1", bounded="sibling: <= 2 priorities x <= 2 items", timeout=1200),
+        dict(name="q_ordered_local_push", bounded="<= 2 priorities x <= 2 items, capacity 2", timeout=1200),
     ],
     functions=[], assumptions=[], bounds="",
     manifest=dict(text="", note="", technique=""),
